@@ -90,6 +90,8 @@ type Exec struct {
 	atCallArgs   []Value
 	topFreeVars  []Value
 	linkSeen     map[string]bool
+	lastFrame    *Frame
+	lastRet      ssa.Instruction
 	stops        []*stopPoint
 	ipdoms       map[*ssa.Function]map[*ssa.BasicBlock]*ssa.BasicBlock
 }
@@ -300,6 +302,14 @@ func (ex *Exec) term(st *State, v Value) Term {
 		if x.Cell == nil && x.Global == nil && !x.IsElem && len(x.Path) == 0 {
 			return x.Base
 		}
+		if x.Cell == nil && x.Global == nil && !x.IsElem {
+			// address of a field of a heap object: abstracted to an opaque address (what is read
+			// through it later is arbitrary; writes through it forget the heaps it may point into)
+			ex.note("interior pointers stored as first-class values are abstracted to opaque addresses in %s", ex.sel)
+			t := ex.fresh("iptr", SInt)
+			st.assume(and(gt(t, intLit(0)), lt(t, st.alloc)))
+			return t
+		}
 		ex.unsupportedf("interior/cell pointer used as a first-class value (%s)", ex.ptrString(x))
 	case TupleV:
 		ex.unsupportedf("tuple used as a value")
@@ -383,6 +393,9 @@ func (ex *Exec) pointeeType(p *PtrV) types.Type {
 }
 
 func (ex *Exec) load(st *State, p *PtrV) Term {
+	if p.Opaque {
+		return ex.freshOfType(st, "opq", ex.pointeeType(p))
+	}
 	switch {
 	case p.Cell != nil:
 		root := st.frames[p.CellFr].cells[p.Cell]
@@ -437,6 +450,16 @@ func (ex *Exec) storeField(st *State, base Term, root types.Type, i int, v Term)
 }
 
 func (ex *Exec) store(st *State, p *PtrV, v Term, site ssa.Instruction) {
+	if p.Opaque {
+		for _, hn := range ex.fieldHeapsOfType(p.Root) {
+			ex.frameWrite(st, site, hn, tFalse)
+			ex.havocHeap(st, hn, false)
+		}
+		s := ex.w.sortOf(p.Root, ex.d)
+		ex.frameWrite(st, site, "P$"+s, tFalse)
+		ex.havocHeap(st, "P$"+s, false)
+		return
+	}
 	switch {
 	case p.Cell != nil:
 		fr := st.frames[p.CellFr]
@@ -734,6 +757,9 @@ func (ex *Exec) execFrom(st *State, b *ssa.BasicBlock, idx int) {
 
 func (ex *Exec) doReturn(st *State, rs []Value, site ssa.Instruction) {
 	fr := st.top()
+	if len(st.frames) == 1 {
+		ex.lastFrame, ex.lastRet = fr, site
+	}
 	k := fr.k
 	st.frames = st.frames[:len(st.frames)-1]
 	k(st, rs)
@@ -953,7 +979,11 @@ func (ex *Exec) ptr(st *State, v Value, t types.Type, site ssa.Instruction) *Ptr
 				ex.oblige(st, "nil", "", site, not(eq(x, intLit(0))), "dereference of non-nil pointer")
 			}
 		}
-		return &PtrV{Base: x, Root: pt.Elem()}
+		p := &PtrV{Base: x, Root: pt.Elem()}
+		if !ex.isModelStruct(pt.Elem()) && ex.mayBeInterior(pt.Elem()) {
+			p.Opaque = true
+		}
+		return p
 	}
 	ex.unsupportedf("value %T is not a pointer", v)
 	return nil
@@ -1273,3 +1303,34 @@ func (ex *Exec) wrapArith(st *State, site ssa.Instruction, t types.Type, r Term)
 		return r
 	}
 }
+
+// fieldHeapsOfType lists the field heaps of in-repo struct types whose field type is t.
+func (ex *Exec) fieldHeapsOfType(t types.Type) []string {
+	key := typeString(t)
+	if ex.w.fieldHeaps == nil {
+		ex.w.fieldHeaps = map[string][]string{}
+		for _, pkg := range ex.w.prog.AllPackages() {
+			if !strings.HasPrefix(pkg.Pkg.Path(), modPath) {
+				continue
+			}
+			scope := pkg.Pkg.Scope()
+			for _, n := range scope.Names() {
+				tn, ok := scope.Lookup(n).(*types.TypeName)
+				if !ok {
+					continue
+				}
+				st, ok := tn.Type().Underlying().(*types.Struct)
+				if !ok {
+					continue
+				}
+				for i := 0; i < st.NumFields(); i++ {
+					fk := typeString(st.Field(i).Type())
+					ex.w.fieldHeaps[fk] = append(ex.w.fieldHeaps[fk], "F$"+structKey(tn.Type())+"$"+st.Field(i).Name())
+				}
+			}
+		}
+	}
+	return ex.w.fieldHeaps[key]
+}
+
+func (ex *Exec) mayBeInterior(t types.Type) bool { return len(ex.fieldHeapsOfType(t)) > 0 }
